@@ -232,6 +232,25 @@ def cases(seed, tier):
         seq = [(rng.randint(0, 1), rng.randrange(cols), rng.randint(0, 1)) for _ in range(rng.randint(1, 8))]
         out.append((f's{nst + i}', f'tape|h|{gen.tape_field(scan, l, r)}|{op_field(seq)}'))
     dist['long_block_tapes'] = nbig
+    # 7. block lengths ON the integer-width boundaries (2^16, 2^31, 2^32, 2^33, k*2^32 and their neighbours): a step that
+    #    pulls one cell from such a block must leave exactly one cell less (after seeded change C12-m8: `count as u32`)
+    BOUND = [2 ** 16, 2 ** 16 + 1, 2 ** 31 - 1, 2 ** 31, 2 ** 31 + 1, 2 ** 32 - 1, 2 ** 32, 2 ** 32 + 1, 2 ** 32 + 2,
+             2 ** 33, 2 ** 33 + 1, 3 * 2 ** 32, 3 * 2 ** 32 + 1, 2 ** 48, 2 ** 48 + 1, 2 ** 60]     # (sums stay below 2^64: marks() is a u64)
+    nbd = 600 if tier == 'quick' else 6000
+    for i in range(nbd):
+        cols = rng.randint(2, 4)
+        def bspan():
+            sp = gen.random_span(rng, cols, 3, 5, True)
+            if sp and rng.random() < 0.8:
+                c0, _n = sp[0]
+                sp[0] = (c0, rng.choice(BOUND))
+            return sp
+        l, r = bspan(), bspan()
+        scan = rng.randrange(cols)
+        # walk into the long blocks with plain (non-sweep) steps in both directions
+        seq = [(rng.randint(0, 1), rng.randrange(cols), 0 if rng.random() < 0.85 else 1) for _ in range(rng.randint(2, 7))]
+        out.append((f's{nst + nbig + i}', f'tape|h|{gen.tape_field(scan, l, r)}|{op_field(seq)}'))
+    dist['width_boundary_tapes'] = nbd
     return out, dist
 
 
@@ -313,6 +332,34 @@ def localise(cid, line):
     return {'start_tape': f[2], 'ops': ops, 'impl': h[:300], 'model': m[:300]}
 
 
+def oracle_step(tp, op):
+    """Independent run-length reading of the CELL semantics of one step (written from the property text, not from
+    tape.rs): write the colour, move one cell; with the sweep flag keep writing and moving while the cell under the
+    head equals the colour scanned at the start.  tp = 'scan/l/r' (nearest block first); op = (shift, colour, skip).
+    -> (tape field expected, cells moved)"""
+    sc_s, l_s, r_s = tp.split('/')
+    s0 = int(sc_s)
+    l, r = [list(b) for b in parse_span(l_s)], [list(b) for b in parse_span(r_s)]
+    sh, co, sk = op
+    pull, push = (r, l) if sh else (l, r)
+    n = 1
+    if sk and pull and pull[0][0] == s0:
+        n += pull[0][1]
+        pull.pop(0)
+    if pull:
+        scan = pull[0][0]
+        pull[0][1] -= 1
+        if pull[0][1] == 0:
+            pull.pop(0)
+    else:
+        scan = 0
+    if push and push[0][0] == co:
+        push[0][1] += n
+    elif push or co != 0:
+        push.insert(0, [co, n])
+    return gen.tape_field(scan, [tuple(b) for b in l], [tuple(b) for b in r]), n
+
+
 def search(rep, diffs, fails):
     """Turn divergences / oracle failures into violations with replays."""
     for cid, line, why in fails[:5]:
@@ -332,9 +379,16 @@ def search(rep, diffs, fails):
         vline = f'{cid}|tape|v|{f[2]}|{f[3]}'
         h = core.run_bbh([vline]).get(cid, '')
         prev_tape = f[2]
+        oplist = [tuple(int(x) for x in o.split(',')) for o in f[3].split(';')] if f[3] else []
         for k, r in enumerate(h.split(';')):
             try:
                 why = check_record(r)
+                if not why and k < len(oplist):
+                    want_tp, want_n = oracle_step(prev_tape, oplist[k])
+                    got_n, got_tp = r.split(' ')[0], r.split(' ')[1]
+                    if (got_tp, got_n) != (want_tp, str(want_n)):
+                        why = (f'step {oplist[k]} from {prev_tape}: the implementation gives {got_tp} after {got_n} cells, '
+                               f'the cell semantics (write, move, sweep while the scanned colour repeats) gives {want_tp} after {want_n}')
                 if not why:
                     want = sig_compat_expected(prev_tape, r)
                     got = r.split(' ')[10] == '1'
